@@ -13,10 +13,12 @@ terms (E1) are extracted on every path and checked.  Every rule is decided on in
         widths never come from the size of the remaining input / another header field; item loops continue exactly while fewer
         octets than declared are consumed (evaluated at consumed = 0, 1, L-1, L, L+1) and are not left early
         a field delegated to a family with a parser that keeps the rest of its buffer is handed a slice cut to the declared length, on every arm
+        a remainder bounded by measurement (header.length - k - (len(buf) measured earlier - len(buf) now)) is evaluated by the checker
   C08.e length-covers-what-follows: each length the writer emits is followed by exactly the octets it counts
   C08.f text codec symmetry: a text field is written with the codec it is read with, per reader path; a remembered fallback codec is
         the one the writer uses in that object state
         octets kept as hex text (key ids, fingerprints) are converted length-preservingly for every width the parse arms accept
+        (flag subpackets: the writer emits exactly the declared octets at value widths 1, 2, 3 - sa.ceval)
   C08.g dispatch: every packet tag has a class, versioned classes define both methods; the dispatcher builds the object from the registry
         entry of (root, type[, version]) and falls back to the opaque entry; opaque payload verbatim; parse errors become PGPError
   C08.h update-after-mutation: library code that builds or changes a packet body recomputes its header length after the last change on
@@ -84,6 +86,12 @@ def run(rep, prog, tier):
     check_field_order(rep, prog, classes)
     check_repetition(rep, prog, classes)
     check_delegate_bounds(rep, prog, classes)
+    check_material_table(rep, prog)
+    check_flag_widths(rep, prog)
+    from rules import C18
+    # EC point / MPI widths: what from_values builds is written fixed-width (ceil(bits / 8)), measured and re-parsed alike (finite-point
+    # evaluation shared with C18.10, reported here as reader/writer agreement)
+    C18.check_widths(rep, prog, 'C08.c')
     check_text_codecs(rep, prog)
     check_value_codecs(rep, prog)
     check_dispatch(rep, prog)
@@ -208,6 +216,43 @@ def _versioned_fact(s, p0):
     return False
 
 
+def _measured_remainder(pf, r, reads, buf, s):
+    """If the upper bound of this read is `L - k - (m - len(buf))` with m = len(buf) taken earlier in the function (evaluated by the
+    checker at three consumption counts): (k, fixed octets read before the measurement); else None."""
+    if s is None or not any(e[0] == 'assign' and e[2] == 'len(%s)' % buf for e in s.events):
+        return None
+    subs = [n for n in ast.walk(pf.node) if isinstance(n, ast.Subscript) and isinstance(n.value, ast.Name) and n.value.id == buf and
+            isinstance(n.slice, ast.Slice) and n.slice.upper is not None and n.slice.lower is None and getattr(n, 'lineno', -1) == r.line]
+    if not subs:
+        return None
+    par = _stmt_parents(pf.node)
+    st = subs[0]
+    while st is not None and not isinstance(st, ast.stmt):
+        st = par.get(id(st))
+    try:
+        values, lsyms, _ = _loop_bound(pf, None, buf, None, expr=subs[0].slice.upper, at=st)
+        N, L = 5000, 1000
+        v = values(N, L, (0, 3, 40))
+    except (_NoEval, AttributeError):
+        return None
+    if not all(isinstance(x, int) and not isinstance(x, bool) for x in v) or v[0] - v[1] != 3 or v[0] - v[2] != 40:
+        return None
+    k = L - v[0]
+    # where the buffer was measured: the reads before that assignment (by line) are the ones the constant has to account for
+    mline = min(e[3] for e in s.events if e[0] == 'assign' and e[2] == 'len(%s)' % buf)
+    before = 0
+    for x in reads:
+        if x is r or x.line >= mline:
+            continue
+        if x.kind in ('fixed', 'fixed-skip', 'skip', 'fixed-delegate') and x.width is not None:
+            if codec._int(x.width) is None:
+                return None
+            before += codec._int(x.width)
+        elif x.kind == 'delegate' and not (x.via or '').startswith('super:'):
+            return None
+    return k, before
+
+
 def check_remainder(rep, c, pf, reads, scen, construct, s=None):
     """C08.d on one reader path."""
     p0 = pf.params[0]
@@ -232,6 +277,18 @@ def check_remainder(rep, c, pf, reads, scen, construct, s=None):
                               'a field is read / consumed up to the end of the shared input buffer instead of the declared length: the reader '
                               'swallows the packets that follow', where='%s:%d' % (pf.module.relpath, r.line),
                               expected='%s minus the octets already consumed' % length, found=r.text, scenario=scen)
+                seen_var = True
+                continue
+            meas = _measured_remainder(pf, r, reads, pf.params[1] if len(pf.params) > 1 else 'packet', s)
+            if meas is not None:
+                # header.length - k - (<buffer length measured earlier> - <buffer length now>): what was consumed since the measurement is
+                # taken from the buffer itself; k must be the header octets plus what had been read before the measurement
+                k, before = meas
+                want = base + before
+                rep.check(k == want and not seen_var, 'C08.d', construct, 'remainder by measurement: header.length - %d - (octets consumed since the buffer was measured)' % k,
+                          'the last field is bounded by header.length minus what the buffer has lost since it was measured; the constant must be the '
+                          'octets consumed before that measurement', where='%s:%d' % (pf.module.relpath, r.line),
+                          expected='%s - %d - (measured - current)' % (length, want), found='%s - %d - (measured - current)' % (length, k), scenario=scen)
                 seen_var = True
                 continue
             lin = _remainder(w, length)
@@ -404,6 +461,14 @@ def check_field_order(rep, prog, classes):
                     rep.violation('C08.c', '%s parse/__bytearray__' % c.name, 'field %s filled by %d reads, written %d time(s)' % (n, nr, nw),
                                   'a field is read more often than it is written: the reader consumes octets of a neighbouring field into it',
                                   where=pf.where, expected='%d read(s) of %s' % (max(nw, 1), n), found=raw, scenario=scen)
+            # one read stored into several attributes: the writer must build ONE item from those attributes (a packed structure, a sum);
+            # if it emits them as separate items the reader has filled two fields from the same octets
+            for ns in raw:
+                parts = set(ns.split('|'))
+                if len(parts) > 1 and not any(parts <= set(w.split('|')) for ws_ in wseqs for w in ws_):
+                    rep.violation('C08.c', '%s parse/__bytearray__' % c.name, 'fields %s are filled from the same octets, the writer emits them separately' % sorted(parts),
+                                  'two fields the writer emits one after the other are read from one and the same slice: the second one never gets its own '
+                                  'octets and everything behind it is shifted', where=pf.where, expected='one read per emitted field', found=raw, scenario=scen)
             # the k-th length the reader takes is the width of the field the k-th length prefix of the writer counts
             rlo = reader_length_order(reads, rp0)
             if rlo:
@@ -600,15 +665,15 @@ def _stmt_order(fi):
     return order
 
 
-def _loop_bound(fi, loop, buf, others):
+def _loop_bound(fi, loop, buf, others, expr=None, at=None):
     """Evaluate the condition under which an item loop continues, with the checker's own integers: the buffer held N octets when the
     loop was entered and `c` of them have been consumed; every quantity that is not a length of the buffer stands for the declared
     length L.  -> (truth per c, the locals that stand for L with the line of their assignment)."""
-    test, exempt = loop.test, None
-    if isinstance(test, ast.Constant) and test.value is True and loop.body and isinstance(loop.body[0], ast.If) and \
+    test, exempt = (loop.test if expr is None else expr), None
+    if expr is None and isinstance(test, ast.Constant) and test.value is True and loop.body and isinstance(loop.body[0], ast.If) and \
             len(loop.body[0].body) == 1 and isinstance(loop.body[0].body[0], ast.Break) and not loop.body[0].orelse:
         test, exempt = ast.UnaryOp(op=ast.Not(), operand=loop.body[0].test), loop.body[0].body[0]
-    inside = set(id(n) for n in ast.walk(loop))
+    inside = set(id(n) for n in ast.walk(loop)) if expr is None else set()
     assigns = [n for n in ast.walk(fi.node) if isinstance(n, ast.Assign) and len(n.targets) == 1 and isinstance(n.targets[0], ast.Name)]
     lsyms = {}
     order = _stmt_order(fi)
@@ -629,9 +694,18 @@ def _loop_bound(fi, loop, buf, others):
             if not prev:
                 return L
             a = max(prev, key=lambda x: order.get(id(x), -1))
+            if expr is not None and not (isinstance(a.value, ast.Call) and dotted(a.value.func) == 'len'):
+                try:
+                    return ev(a.value, cur, N, L, order.get(id(a), -1))
+                except _NoEval:
+                    return L
             if not any(isinstance(n, ast.Call) and dotted(n.func) == 'len' and n.args and ast.unparse(n.args[0]) == buf for n in ast.walk(a.value)):
                 lsyms[node.id] = order.get(id(a), -1)
                 return L
+            pure = isinstance(a.value, ast.Call) and dotted(a.value.func) == 'len' and len(a.value.args) == 1 and ast.unparse(a.value.args[0]) == buf
+            if expr is not None and not pure:
+                # a temporary computed on the way to the bound sees the buffer as it is then; only a bare len(buf) is a measurement
+                return ev(a.value, cur, N, L, order.get(id(a), -1))
             return ev(a.value, N, N, L, order.get(id(a), -1))
         if isinstance(node, ast.Attribute):
             return L
@@ -655,7 +729,10 @@ def _loop_bound(fi, loop, buf, others):
 
     def table(N, L):
         return [bool(ev(test, max(N - k, 0), N, L, order.get(id(loop), 10 ** 6))) for k in (0, 1, L - 1, L, L + 1)]
-    return table, lsyms, exempt
+
+    def values(N, L, cs):
+        return [ev(test, N - k, N, L, order.get(id(at), 10 ** 6)) for k in cs]
+    return (table if expr is None else values), lsyms, exempt
 
 
 def check_repetition(rep, prog, classes):
@@ -873,6 +950,72 @@ def check_delegate_bounds(rep, prog, classes):
                       expected='a slice cut to the declared length, consumed afterwards', found='%s.parse(%s); %s' % (attr, buf, ', '.join(openk)), scenario='delegate %s' % attr)
     if n < 8:
         raise AnalysisError('delegated fields: only %d recognised' % n)
+
+
+# ------------------------------------------------------------------------------------------------ key material dispatch (C08.g)
+def check_material_table(rep, prog):
+    """The key material class the `pkalg` setter chooses (evaluated at every algorithm, sa.ceval): the secret-key packet's choice is a
+    PrivKey and extends the public-key packet's choice for the same algorithm - otherwise a secret key packet of that algorithm is read
+    and written with the public codec only and silently drops its secret part (or a public packet would carry a secret codec)."""
+    f, full = tables._keymaterial_eval(prog)
+    fields = prog.module('pgpy.packet.fields')
+    privbase = fields.classes.get('PrivKey')
+    if privbase is None:
+        raise AnalysisError('fields.PrivKey vanished')
+    n = 0
+    for (public, alg), name in sorted(full.items()):
+        if public:
+            continue
+        pub = full.get((True, alg))
+        kpriv, kpub = fields.classes.get(name), fields.classes.get(pub) if pub else None
+        if kpriv is None or kpub is None:
+            raise AnalysisError('key material classes %s / %s of %s not found' % (name, pub, alg))
+        n += 1
+        ok = privbase in kpriv.mro() and kpub in kpriv.mro() and privbase not in kpub.mro()
+        rep.check(ok, 'C08.g', 'PubKeyV4.pkalg (key material dispatch)', '%s: secret-key packets use %s, public-key packets use %s' % (alg, name, pub),
+                  'for every algorithm the key material class of the secret-key packet must be a PrivKey that extends the class of the public-key '
+                  'packet: its codec is the public fields followed by the secret ones', where=f.where,
+                  expected='a PrivKey subclass of %s' % pub, found=name, scenario=alg)
+    if n < 8:
+        raise AnalysisError('key material dispatch: only %d algorithms evaluated' % n)
+
+
+# ------------------------------------------------------------------------------------------------ flag subpackets (C08.e)
+def check_flag_widths(rep, prog):
+    """A flags subpacket parsed with a value of w octets declares length 1 + w; its writer must emit exactly that many octets after the
+    length octet (type octet + value null-padded to w), for w = 1, 2, 3.  The writers are evaluated by the checker (sa.ceval) on an
+    object whose header length and flag set are put in place directly."""
+    from sa.ceval import Evaluator, Raised, NoEval, Diverged
+    E = Evaluator(prog)
+    m = prog.module('pgpy.packet.subpackets.signature')
+    n = 0
+    for c in m.classes.values():
+        if not any(k.name == 'ByteFlag' for k in c.mro()[1:]):
+            continue
+        wf = c.find_method('__bytearray__')
+        tid = _class_const(prog, [k for k in c.mro() if '__typeid__' in k.attrs][0], '__typeid__')
+        for w in (1, 2, 3):
+            try:
+                o = E.new(c)
+                h = E.get(o, 'header')
+                E.set(h, 'typeid', tid)
+                E.set(h, 'length', 1 + w)
+                o.attrs['_flags'] = {1}
+                out = E.tobytes(E.method(o, '__bytearray__'))
+            except Raised as ex:
+                rep.violation('C08.e', '%s.__bytearray__' % c.name, 'value of %d octet(s): the writer raises %s' % (w, ex),
+                              'the writer of a flags subpacket must serialise a value of any width it can parse', where=wf.where, scenario='width %d' % w)
+                n += 1
+                continue
+            except (NoEval, Diverged) as ex:
+                raise AnalysisError('%s.__bytearray__ outside the evaluator: %s' % (c.name, ex))
+            want = bytes([1 + w, tid, 1] + [0] * (w - 1))
+            n += 1
+            rep.check(out == want, 'C08.e', '%s.__bytearray__' % c.name, 'declared length %d, written %s' % (1 + w, out.hex()),
+                      'the subpacket length octet must be followed by exactly the octets it counts: the type octet and the flag value '
+                      'null-padded to the width it was read with', where=wf.where, expected=want.hex(), found=out.hex(), scenario='width %d' % w)
+    if n < 6:
+        raise AnalysisError('flag subpackets: only %d writer evaluations' % n)
 
 
 def _dedupe(seq):
@@ -1665,7 +1808,14 @@ def check_update_hlen(rep, prog):
     for mod, cls, meth, sel, join in UPDATE_SITES:
         f = prog.method(mod, cls, meth)
         rep.saw(fn=f)
-        outs = Interp(prog, Scenario(inline=noinline, join_unknown=join)).run(f)
+        try:
+            outs = Interp(prog, Scenario(inline=noinline, join_unknown=join)).run(f)
+        except AnalysisError as ex:
+            if join or 'path explosion' not in str(ex):
+                raise
+            # too many independent branches to enumerate: join the arms of undecided tests (the ordered event log keeps every change and
+            # every update_hlen call; events after a join stay after it)
+            outs = Interp(prog, Scenario(inline=noinline, join_unknown=True)).run(f)
         seen, bad = 0, []
         for s in outs:
             if s.raised is not None:
